@@ -213,6 +213,23 @@ def cyl_case(ck: Check, rng):
     if len(found) != len(drops):
         ck.fail(f"{len(found)} droplets located for {len(drops)} on-axis droplets", {**sig, "check": "count"}, case)
         return
+    # ---- model pipeline (C01_cylinder_model): exact rational rendering of the (r, z) half plane -> Cyl.candidates
+    try:
+        axes = f"0/1 {q(dr)} {nr} 0 {q(zlo)} {q(dz)} {nz} {int(per)}"
+        outs = run_driver([f"c03 inside 2 {axes} 0/1 {q(d.position[2])} {q(d.radius)}" for d in drops])
+        mask = np.zeros((nr, nz), dtype=bool)
+        for out in outs:
+            mask |= np.array([c == "1" for c in out.split()[1]]).reshape(nr, nz)
+        out = run_driver([f"c02 cyl {nr} {nz} {int(per)} " + " ".join(str(int(b)) for b in mask.flat)])[0]
+        items = sorted((float(Fraction(it.split(":")[0])), int(it.split(":")[1])) for it in out[2:].strip().split(";") if it) if out.startswith("ok") and "spanning" not in out else None
+        got = sorted((float(f.position[2]), float(f.volume)) for f in found)
+        unit = math.pi * dr * dr * dz
+        if items is None or len(items) != len(got) or any(
+                abs(zlo + dz * zq - z) > 1e-9 * max(1.0, abs(z)) or not rel_close(v, unit * w, 1e-12) for (zq, w), (z, v) in zip(items, got)):
+            ck.mismatch("c01-cyl-pipeline", f"implementation locates {got}; model pipeline {out[:200]} (z in cells, weight in pi dr^2 dz)", case)
+        ck.count("cylindrical.model_pipeline")
+    except RuntimeError as e:
+        ck.mismatch("c01-cyl-pipeline", f"driver unavailable: {e}", case)
     x = grid.transform(grid.cell_coords, "grid", "cartesian")
     for d in drops:
         f = min(found, key=lambda t: abs(t.position[2] - d.position[2]))
